@@ -168,6 +168,12 @@ func NewGen(r *Rng, k Knobs) *Gen {
 		g.C.Ops = append(g.C.Ops, sp)
 		g.ob[ret] = append(g.ob[ret], len(g.C.Ops)-1)
 	}
+	// a user operator stored under a built-in name (possible through
+	// RegVarAndOp or a direct map write): built-ins take precedence, so it must
+	// never run. It is not offered to the program generator as a user operator.
+	if r.P(0.1) {
+		g.C.Ops = append(g.C.Ops, OpSpec{Name: PickS(r, []string{"add", "+", "eq", "=", "and", "version", "not", "in", ">"}), Kind: "pure", Ret: TInt, Arity: 2})
+	}
 	if k.FailOp {
 		g.C.Ops = append(g.C.Ops, OpSpec{Name: "cfail", Kind: "fail", Ret: TBool, Arity: r.Intn(3)})
 		g.fl = append(g.fl, len(g.C.Ops)-1)
